@@ -18,7 +18,7 @@ import (
 
 // C11 -- normal .gox class file = explicit struct.  A case of specs/sem2/ClassFile.tla:
 //
-//	fields    field types in order (field i is named f<i> / F<i>)
+//	fields    field types in order (field i is named m1, a2, z3, b4 / M1, A2, ...)
 //	grouping  lines | merged | single ; block = the var block as specs [names (field indices), type]
 //	methods   template names in declaration order
 //	twin      the model's explicit-struct twin: fields [ix,type], methods [name,params,results,recv]
@@ -55,11 +55,14 @@ type cfCase struct {
 }
 
 func (c *cfCase) cls(idx int) string { return fmt.Sprintf("C%d", idx) }
+// field i is named so that declaration order is NOT alphabetical order (m1, a2, z3, b4): a
+// compiler that sorted the fields would be visible.
 func (c *cfCase) fname(i int) string {
+	l := []string{"m", "a", "z", "b"}[(i-1)%4]
 	if c.Exported {
-		return fmt.Sprintf("F%d", i)
+		l = strings.ToUpper(l)
 	}
-	return fmt.Sprintf("f%d", i)
+	return fmt.Sprintf("%s%d", l, i)
 }
 func (c *cfCase) mname(m string) string {
 	if c.Exported {
